@@ -41,7 +41,44 @@ def drive_case(case, extra):
     from pymbolic.interop.ast import (ASTToPymbolic, to_evaluatable_python_function,
                                       to_python_ast)
     envs = _envs(extra)
-    e = ser.from_json(case["e"])
+    rec = _drive_one(case, ser.from_json(case["e"]), envs)
+    # the same tree with every number given as a numpy scalar (coefficients read out of arrays):
+    # recorded - and judged like any other record - only where that changes anything
+    if '"Const"' in json.dumps(case["e"]):
+        alt = _drive_one(case, ser.from_json_numpy(case["e"]), envs)
+        # numpy's own arithmetic (fixed width, inf instead of ZeroDivisionError, ...) is not the
+        # arithmetic of the model: of the numpy build only the TRANSLATION outcome is judged -
+        # a path that translates the plain build must translate this one too
+        def broken(r):      # the generated code cannot be built, or dies of a name / syntax error
+            if not isinstance(r, dict):
+                return None
+            if r.get("r") == "err":
+                return r
+            vals = r.get("vals") or []
+            bad = [v for v in vals if v.get("k") == "err" and v.get("e") in ("NameError", "SyntaxError")]
+            if vals and len(bad) == len(vals):
+                return {"r": "err", "v": bad[0]}
+            return None
+        raised = []
+        for k in ("c", "cp", "a", "fn", "imp", "imps"):
+            b = broken(alt.get(k))
+            if b is not None and broken(rec.get(k)) is None:
+                alt[k] = b
+                raised.append(k)
+        if raised:
+            extra_rec = dict(rec)
+            for k in raised:
+                extra_rec[k] = alt[k]
+            extra_rec["id"] = f"{case['id']}n"
+            extra_rec["numpy_constants"] = True
+            return [rec, extra_rec]
+    return [rec]
+
+
+def _drive_one(case, e, envs):
+    import pymbolic
+    from pymbolic.interop.ast import (ASTToPymbolic, to_evaluatable_python_function,
+                                      to_python_ast)
     listed = list(case["listed"])
     full = len(listed) == 0
     rec = {"id": case["id"], "e": case["e"], "listed": listed, "full": full, "params": []}
@@ -167,7 +204,8 @@ def run(tier, seed, out):
             f"{len(gen.design)} trees whose printed source means something else under Python's grammar (model)")
     out.extra["design_level_failures_on_model"] = len(gen.design)
     out.extra["design_level_examples"] = [d["de"] for d in gen.design[:3]]
-    recs = kit.drive("harness.c13", "drive_case", cases, {"envs": envs}, chunk=300)
+    recs = [r for rs in kit.drive("harness.c13", "drive_case", cases, {"envs": envs}, chunk=300) for r in rs]
+    out.extra["numpy_constant_builds_that_differ"] = sum(1 for r in recs if r.get("numpy_constants"))
     out.evaluations += sum((2 + (4 if r["full"] else 0)) * len(envs) for r in recs)
 
     def corrupt(r):      # a recorded compiled value off by one / a swapped parameter order
@@ -196,5 +234,7 @@ def replay(path, out):
     wd = kit.fresh_workdir("C13")
     d = json.loads(open(path).read())
     gen, envs, _ = _gen("quick")
-    recs = kit.drive("harness.c13", "drive_case", [d["detail"]["case"]], {"envs": envs})
+    case = dict(d["detail"]["case"])
+    case["id"] = str(case["id"]).rstrip("n")
+    recs = [r for rs in kit.drive("harness.c13", "drive_case", [case], {"envs": envs}) for r in rs]
     judge(out, recs, wd)
